@@ -23,6 +23,7 @@ func init() {
 			"reading of the statement: run lengths are clipped to the status count; every received symbol of a status vector chunk has a delta (also symbols beyond the count); the invariance half uses chunkings whose unused trailing symbols are zero, where both readings coincide",
 			"declared length = 4*(length field+1) computed without 16-bit wrap",
 		},
+		FuzzTarget: "FuzzTWCC", FuzzExecs: 6000000,
 		MinDistinctQuick: 50000, MinDistinctThorough: 2000000,
 	})
 }
